@@ -1,0 +1,41 @@
+//go:build verif
+
+package replica
+
+import "github.com/lindb/lindb/models"
+
+// Verification exports for property C07 (node crash recovery). They only expose existing
+// unexported steps of a partition so that the harness can run the replica loop body and the
+// partition recovery one step at a time (instead of from the background goroutine started by
+// StartReplica). No behaviour is added.
+
+// VerifReplicaOnce runs the body of one replicaLoop iteration (partition.replica) for the
+// replicator of nodeID. The caller must make sure a message is pending, otherwise Consume blocks.
+func VerifReplicaOnce(p Partition, nodeID models.NodeID) bool {
+	pp, ok := p.(*partition)
+	if !ok {
+		return false
+	}
+	r, ok := pp.replicators[nodeID]
+	if !ok {
+		return false
+	}
+	pp.replica(nodeID, r)
+	return true
+}
+
+// VerifPartitionRecovery calls partition.recovery (rebuilds the replicators from the consumer
+// groups found in the log directory), as writeAheadLog.recovery does.
+func VerifPartitionRecovery(p Partition, leader models.NodeID) error {
+	return p.recovery(leader)
+}
+
+// VerifReplicator returns the replicator registered for nodeID.
+func VerifReplicator(p Partition, nodeID models.NodeID) (Replicator, bool) {
+	pp, ok := p.(*partition)
+	if !ok {
+		return nil, false
+	}
+	r, ok := pp.replicators[nodeID]
+	return r, ok
+}
